@@ -2171,6 +2171,7 @@ class SessionTicketPayload(object):
         self.encrypt_then_mac = False
         self.extended_master_secret = False
         self.server_name = bytearray()
+        self.srp_username = bytearray()
 
     @property
     def client_cert_chain(self):
@@ -2189,7 +2190,7 @@ class SessionTicketPayload(object):
     def create(self, master_secret, protocol_version, cipher_suite,
                creation_time, nonce=bytearray(), client_cert_chain=None,
                encrypt_then_mac=False, extended_master_secret=False,
-               server_name=bytearray()):
+               server_name=bytearray(), srp_username=bytearray()):
         """Initialise the object with cryptographic data."""
         self.master_secret = master_secret
         self.protocol_version = protocol_version
@@ -2209,6 +2210,13 @@ class SessionTicketPayload(object):
                 self.server_name = bytearray()
             else:
                 self.server_name = server_name
+        if srp_username:
+            # the SRP user name is the client identity of an SRP session,
+            # it must survive the round trip through the ticket
+            if self.client_cert_chain is None:
+                self._cert_chain = []
+            self.version = 3
+            self.srp_username = srp_username
         return self
 
     def _parse_cert_chain(self, parser):
@@ -2219,7 +2227,7 @@ class SessionTicketPayload(object):
 
     def parse(self, parser):
         self.version = parser.get(2)
-        if self.version > 2:
+        if self.version > 3:
             raise ValueError("Unrecognised version number")
         self.master_secret = parser.getVarBytes(2)
         self.protocol_version = (parser.get(1), parser.get(1))
@@ -2232,6 +2240,8 @@ class SessionTicketPayload(object):
             self.encrypt_then_mac = bool(parser.get(1))
             self.extended_master_secret = bool(parser.get(1))
             self.server_name = parser.getVarBytes(2)
+        if self.version >= 3:
+            self.srp_username = parser.getVarBytes(1)
         if parser.getRemainingLength():
             raise ValueError("Malformed ticket")
         return self
@@ -2257,6 +2267,9 @@ class SessionTicketPayload(object):
             writer.addOne(int(self.extended_master_secret))
             writer.addTwo(len(self.server_name))
             writer.bytes += self.server_name
+        if self.version >= 3:
+            writer.addOne(len(self.srp_username))
+            writer.bytes += self.srp_username
         return writer.bytes
 
 
